@@ -556,6 +556,8 @@ func (vc *VC) finishReturn(st *State, vals []Val, pos token.Pos) {
 		return
 	}
 	vc.retOrd++
+	// reachability cover for this return site (vacuity guard): the path condition must not be refutable
+	vc.covers = append(vc.covers, &Obligation{Name: fmt.Sprintf("%s/cover@ret%d", vc.fn.Key, vc.retOrd), Clause: vc.fn.Key + "/cover", Kind: "cover", Func: vc.fn.Key, Goal: "false", PC: append([]string(nil), st.pc...), Pos: vc.eng.pos(pos)})
 	vc.checkPost(st, vals, pos, vc.retOrd)
 }
 
@@ -862,6 +864,9 @@ func (vc *VC) loopHead(st *State, li *loopInfo, spec *LoopSpec, pos token.Pos, r
 			t := vc.specBool(st, nil, inv.Expr, rc, nil)
 			vc.assume(st, t)
 		}
+	}
+	if !vc.curFrame().inline {
+		vc.assumeLemmas(st)
 	}
 }
 
@@ -1292,6 +1297,9 @@ func (vc *VC) contractEffects(ct *Contract, li *loopInfo) {
 				li.globals[o] = true
 			}
 		default:
+			if at := strings.Index(m, "@"); at >= 0 {
+				m = m[:at]
+			}
 			k := strings.LastIndex(m, ".")
 			if k < 0 {
 				li.allHeap = true
